@@ -194,7 +194,7 @@ def _run(ck):
                           'admitted and printed as std::%s(<%s>, <%s>): template argument deduction fails for different argument types' % (kind.lower(), lc, rc))
         # console.log(x) is printed as `qDebug().noquote() << <x>` for whatever the builder admits
         TDL = dict(TD)
-        TDL.update({'null': ('NullPointer',), 'empty-list': ('EmptyList',)})
+        TDL.update({'null': ('NullPointer',), 'empty-list': ('EmptyList',), 'void': ('Concrete', c05.VOID)})
         for tn, tt in TDL.items():
             g = c05.dyn_builtin(I4, ('ConsoleLog', ('Debug',)), [tt])
             if g is None:
